@@ -12,7 +12,9 @@ PEP 3333 / ASGI drivers.  Independent monitors (vlib/models/media_c12.py):
                   undecodable must surface as a 4xx MediaMalformedError (400 on the wire), never 5xx
 """
 
+import functools
 import itertools
+import json
 import math
 import struct
 
@@ -21,6 +23,7 @@ import falcon.asgi
 import falcon.asgi.stream
 import falcon.stream
 from falcon.media import JSONHandler
+from falcon.media import URLEncodedFormHandler
 
 from vlib.drivers import asgi as A
 from vlib.drivers import wsgi as W
@@ -321,14 +324,74 @@ class FlakyInput(W.FakeInput):
 _APPS = {}
 
 
+# ---- handler configuration (documented knobs of JSONHandler: dumps / loads, str or bytes; subclassing)
+
+def _bytes_dumps(obj):
+    return json.dumps(obj, ensure_ascii=False).encode('utf-8')              # what orjson-style libraries return
+
+
+def _bytes_ascii_compact_dumps(obj):
+    return json.dumps(obj, separators=(',', ':')).encode('ascii')
+
+
+def _str_only_loads(text):
+    if type(text) is not str:                                               # e.g. rapidjson-style strictness
+        raise TypeError('loads() accepts str only, got %s' % type(text).__name__)
+    return json.loads(text)
+
+
+def _bytes_too_loads(data):
+    return json.loads(data)
+
+
+DUMPS = {
+    'default': None,
+    'ascii': functools.partial(json.dumps, ensure_ascii=True),
+    'compact': functools.partial(json.dumps, ensure_ascii=False, separators=(',', ':')),
+    'sorted-indent': functools.partial(json.dumps, ensure_ascii=False, sort_keys=True, indent=1),
+    'bytes': _bytes_dumps,
+    'bytes-ascii-compact': _bytes_ascii_compact_dumps,
+}
+LOADS = {'default': None, 'str-only': _str_only_loads, 'lenient': _bytes_too_loads}
+
+
+class SubJSONHandler(JSONHandler):
+    """A plain subclass (the documented way to extend): disables the optimized sync protocol under ASGI."""
+
+
+class SubFormHandler(URLEncodedFormHandler):
+    """Plain subclass of the form handler."""
+
+
+CLASSES = {'stock': (JSONHandler, URLEncodedFormHandler), 'sub': (SubJSONHandler, SubFormHandler)}
+CFG = [None]        # active handler configuration: None (framework defaults) or (dumps, loads, class) names
+
+
+def all_cfgs():
+    return [(d, l, c) for c in CLASSES for d in DUMPS for l in LOADS]
+
+
+def set_cfg(cfg):
+    CFG[0] = tuple(cfg) if cfg else None
+
+
 def apps():
-    if not _APPS:
+    """App pair for the active handler configuration (built once per configuration)."""
+    key = CFG[0]
+    if key not in _APPS:
         _instrument()
         w = falcon.App(middleware=[RenderThenAmendW()])
         a = falcon.asgi.App(middleware=[RenderThenAmendA()])
         for app in (w, a):
-            app.req_options.media_handlers[VND] = JSONHandler()
-            app.resp_options.media_handlers[VND] = JSONHandler()
+            for opts in (app.req_options, app.resp_options):
+                if key is None:
+                    opts.media_handlers[VND] = JSONHandler()
+                else:
+                    jcls, fcls = CLASSES[key[2]]
+                    # the same configuration for the default JSON type and for the vendor +json type
+                    opts.media_handlers[JSON] = jcls(dumps=DUMPS[key[0]], loads=LOADS[key[1]])
+                    opts.media_handlers[VND] = jcls(dumps=DUMPS[key[0]], loads=LOADS[key[1]])
+                    opts.media_handlers[FORM] = fcls()
             app.req_options.media_handlers[FAULTY_SYNC] = FaultySyncHandler()
             app.req_options.media_handlers[FAULTY_ASYNC] = FaultyAsyncHandler()
         w.add_route('/doc', DocW())
@@ -336,7 +399,7 @@ def apps():
         a.add_route('/doc', DocA())
         a.add_route('/echo', EchoA())
 
-        async def counted(scope, receive, send):
+        async def counted(scope, receive, send, a=a):
             async def rcv():
                 k = CUR['rcv']
                 CUR['rcv'] += 1
@@ -345,8 +408,8 @@ def apps():
                     raise OSError('simulated: connection reset by peer while receiving the request body')
                 return await receive()
             await a(scope, rcv, send)
-        _APPS['w'], _APPS['a'] = w, counted
-    return _APPS
+        _APPS[key] = {'w': w, 'a': counted}
+    return _APPS[key]
 
 
 # ------------------------------------------------------------------ running one request
@@ -442,9 +505,22 @@ def deserialize(stack, ct, body, history, propagate, chunks=None, with_cl=True, 
 
 # ------------------------------------------------------------------ oracle
 
+_EXPECTED_CACHE = {}
+
+
 def expected(kind, body):
-    """Outcome class of the single parse attempt, decided by the reference readers.
-    -> (class, predicate or None, info) with class in value|notfound|malformed|value_or_malformed"""
+    """Outcome class of the single parse attempt, decided by the reference readers (memoized for the big
+    fixed bodies, which are judged many times)."""
+    if len(body) <= 4096:
+        return _expected(kind, body)
+    key = (kind, h64(body), len(body))
+    if key not in _EXPECTED_CACHE:
+        _EXPECTED_CACHE[key] = _expected(kind, body)
+    return _EXPECTED_CACHE[key]
+
+
+def _expected(kind, body):
+    """-> (class, predicate or None, info) with class in value|notfound|malformed|value_or_malformed"""
     if kind == 'form':
         st, val, flags = M.ref_form_parse(body)
         if st == 'bad':
@@ -573,7 +649,7 @@ CODES = 'GMDN'
 
 def run_request(rec, stack, kind, ct, ct_class, body, history, propagate, chunks=None, with_cl=True,
                 style=0, trailing=b'', tag='req'):
-    wit = {'mode': 'request', 'stack': stack, 'kind': kind, 'ct': ct, 'ct_class': ct_class,
+    wit = {'mode': 'request', 'cfg': CFG[0], 'stack': stack, 'kind': kind, 'ct': ct, 'ct_class': ct_class,
            'body_hex': body.hex() if len(body) <= 4096 else None,
            'body_gen': None if len(body) <= 4096 else CUR_GEN.get('desc'),
            'history': ''.join(history), 'propagate': propagate, 'chunks': chunks, 'with_cl': with_cl,
@@ -586,7 +662,7 @@ def run_request(rec, stack, kind, ct, ct_class, body, history, propagate, chunks
         rec.count('asgi.multi_chunk' if n > 1 else 'asgi.single_chunk')
         rec.count('asgi.with_cl' if with_cl else 'asgi.no_cl')
     nontrivial = bool(body) or len(history) >= 2
-    rec.case((stack, kind, ct, h64(body), ''.join(history), propagate, tuple(chunks or ()), with_cl, style)
+    rec.case((CFG[0], stack, kind, ct, h64(body), ''.join(history), propagate, tuple(chunks or ()), with_cl, style)
              if nontrivial else None)
     return ok, log
 
@@ -922,7 +998,8 @@ def roundtrip(rec, kind, doc, ct, rng, stacks_ser='wa', stacks_de='wa', tag='rt'
     for s in stacks_ser:
         st, rct, body, problems = serialize(s, doc, ct, pre)
         rec.count('mon.serialize.' + kind + '.' + s)
-        base = {'mode': 'roundtrip', 'kind': kind, 'doc_hex': doc_hex, 'ct': ct, 'ser': s, 'tag': tag, 'pre': pre}
+        base = {'mode': 'roundtrip', 'cfg': CFG[0], 'kind': kind, 'doc_hex': doc_hex, 'ct': ct, 'ser': s, 'tag': tag,
+                'pre': pre}
         if st != 200 or problems:
             rec.violation('serialize-failed', dict(base, detail=[st, problems, body[:200]]))
             continue
@@ -951,7 +1028,7 @@ def roundtrip(rec, kind, doc, ct, rng, stacks_ser='wa', stacks_de='wa', tag='rt'
                     chunks, with_cl, style = gen_chunks(rng, len(body)), rng.random() < 0.5, rng.randrange(4)
                 elif rng.random() < 0.3:
                     trailing = rng.choice([b'GET / HTTP/1.1\r\n\r\n', b']}', b'\x00', b'&z=1'])
-            wit = {'mode': 'roundtrip', 'kind': kind, 'doc_hex': doc_hex, 'ct': ct, 'ser': s, 'de': d,
+            wit = {'mode': 'roundtrip', 'cfg': CFG[0], 'kind': kind, 'doc_hex': doc_hex, 'ct': ct, 'ser': s, 'de': d,
                    'history': ''.join(hist), 'chunks': chunks, 'with_cl': with_cl, 'style': style,
                    'trailing_hex': trailing.hex(), 'tag': tag, 'pre': pre}
             log, status, problems = deserialize(d, rct, body, hist, False, chunks, with_cl, style, trailing)
@@ -975,7 +1052,7 @@ def roundtrip(rec, kind, doc, ct, rng, stacks_ser='wa', stacks_de='wa', tag='rt'
                         fired = True
             if fired:
                 break
-    rec.case((kind, doc_hex, ct, tag))
+    rec.case((CFG[0], kind, doc_hex, ct, tag, pre))
     return bodies
 
 
@@ -1024,7 +1101,7 @@ def run_faulty(rec, stack, ct, body, history, fault, chunks=None, with_cl=True, 
     """One request whose single parse attempt fails with an arbitrary exception (I/O error while the body is
     read, or a custom handler raising). Contract: every later access re-raises the IDENTICAL exception
     instance, performs no stream operation and does not invoke the handler again."""
-    wit = {'mode': 'faulty', 'stack': stack, 'ct': ct, 'body_hex': body.hex(), 'history': ''.join(history),
+    wit = {'mode': 'faulty', 'cfg': CFG[0], 'stack': stack, 'ct': ct, 'body_hex': body.hex(), 'history': ''.join(history),
            'fault': fault, 'chunks': chunks, 'with_cl': with_cl, 'tag': tag}
     log, status, problems = deserialize(stack, ct, body, history, False, chunks, with_cl, 0, b'', fault)
     hdelta = CUR.get('hdelta', [])
@@ -1107,6 +1184,58 @@ def phase_faulty(rec, maxlen):
                     rec.count('phase.faulty')
 
 
+CONFIG_DOCS = [{'k': [1, 'é\U0001F600', -2.5e-3, True, None], 'o': {'': '\\"\n/\x00\u2028'}}, [], {}, 0, False, '',
+               'é', ['e\u0301', '\U0010FFFF', '\x7f'], 10 ** 30, 1.5e300, [[[[[[1]]]]]], {'b': 1, 'a': {'d': 2, 'c': [3]}},
+               'x' * 70000]
+
+
+def phase_handler_config(rec):
+    """Every handler configuration (dumps x loads x stock/subclass, registered for the default JSON type and a
+    vendor +json type) x a document corpus: full round trip on the four stack pairs with response-side
+    histories, plus the request-side contract (valid / empty / undecodable bodies) through the same handlers."""
+    idx = 0
+    req_classes = [(b' {"a" : [1, "\\u00e9\xc3\xa9"]} ', 'GDM'), (b'', 'DGN'), (b'{"a": [1, ', 'GG'), (b'"\xe9"', 'MD'),
+                   (b'[' * 100000, 'GM')]
+    try:
+        for cfg in all_cfgs():
+            set_cfg(cfg)
+            for doc in CONFIG_DOCS:
+                for ct in (None, JSON + '; charset=utf-8', VND):
+                    if isinstance(doc, str) and len(doc) > 10000 and ct is not None:
+                        continue                      # the 70 KB document once per configuration
+                    idx += 1
+                    if idx % rec.nshards != rec.shard:
+                        continue
+                    roundtrip(rec, 'json', doc, ct, None, tag='config', pre=idx % 5)
+                    rec.count('phase.config')
+                    rec.count('config.dumps.' + cfg[0])
+                    rec.count('config.loads.' + cfg[1])
+                    rec.count('config.class.' + cfg[2])
+            for body, hist in req_classes:
+                for stack in 'wa':
+                    for ct in (JSON, VND):
+                        if len(body) > 4096 and ct == VND:
+                            continue
+                        idx += 1
+                        if idx % rec.nshards != rec.shard:
+                            continue
+                        CUR_GEN['desc'] = 'open-arrays-1e5'
+                        run_request(rec, stack, 'json', ct, 'designated', body, list(hist), idx % 2 == 0,
+                                    [len(body) // 3 + 1] * 2 if (stack == 'a' and body) else None, with_cl=idx % 3 != 0,
+                                    tag='hostile:open-arrays-1e5' if len(body) > 4096 else 'config')
+                        rec.count('phase.config_requests')
+            if cfg[0] == 'default' and cfg[1] == 'default':
+                for f in corpus_forms():
+                    idx += 1
+                    if idx % rec.nshards != rec.shard:
+                        continue
+                    roundtrip(rec, 'form', f, FORM, None, tag='config', pre=idx % 5)
+                    rec.count('config.form.' + cfg[2])
+            rec.seen('handler_configs', cfg)
+    finally:
+        set_cfg(None)
+
+
 def phase_hostile(rec):
     idx = 0
     for desc, body in hostile_bodies():
@@ -1145,6 +1274,8 @@ def phase_random(rec):
     while rec.budget_ok(0.85):
         for _ in range(10):
             n += 1
+            set_cfg(rng.choice(all_cfgs()) if rng.random() < 0.4 else None)
+            rec.count('random.configured' if CFG[0] else 'random.default_handlers')
             # --- JSON round trip through falcon's serializer, all four stack pairs
             doc = gen_top_doc(rng)
             ct = rng.choice(JSON_CTS)
@@ -1216,6 +1347,7 @@ def phase_random(rec):
                         rng.choice([None, [0], [0, 0, 0]]) if stack == 'a' else None, rng.random() < 0.5,
                         rng.randrange(4), tag='empty')
             rec.count('mon.empty_json')
+        set_cfg(None)
 
 
 def run(rec):
@@ -1236,6 +1368,7 @@ def run(rec):
     phase_corpus(rec)
     phase_reassign(rec)
     phase_faulty(rec, 3 if quick else 4)
+    phase_handler_config(rec)
     phase_histories(rec, 4 if quick else 5)
     phase_truncations(rec, quick)
     phase_chunkings(rec, quick)
@@ -1289,6 +1422,16 @@ def run(rec):
     rec.floor('mon.same_object.list', 40)
     rec.floor('phase.reassign', 100)
     rec.floor('phase.faulty', 2000)
+    rec.floor('phase.config', 1200)
+    rec.floor('phase.config_requests', 500)
+    for name in DUMPS:
+        rec.floor('config.dumps.' + name, 150)
+    for name in LOADS:
+        rec.floor('config.loads.' + name, 300)
+    for name in CLASSES:
+        rec.floor('config.class.' + name, 500)
+        rec.floor('config.form.' + name, 10)
+    rec.floor('random.configured', 50)
     rec.floor('mon.faulty.io.w', 100)
     rec.floor('mon.faulty.io.a', 300)
     rec.floor('mon.faulty.handler.w', 1000)
@@ -1305,6 +1448,7 @@ def run(rec):
 
 def replay(rec, w):
     wit = w['witness']
+    set_cfg(wit.get('cfg'))
     apps()
     if wit.get('mode') == 'roundtrip':
         kind = wit.get('kind', 'json')
